@@ -295,6 +295,67 @@ fn main() {
     bc_envelope::register_tags();
     let mut f = std::io::BufWriter::new(std::fs::File::create(&out).expect("out"));
     let mut total = 0usize;
+    if mode == "order" {
+        // C01 / C04: assertions whose digests agree in their first k bytes (k = 1..4, found by a birthday
+        // search) added to one subject in both orders: the order relation on digests must be the full
+        // lexicographic one, whatever prefix two digests share.
+        let candidates: usize = arg(&args, "--candidates").and_then(|s| s.parse().ok()).unwrap_or(300_000);
+        let mut by_prefix: Vec<HashMap<Vec<u8>, u64>> = vec![HashMap::new(); 5];
+        let mut pairs: Vec<(usize, u64, u64)> = vec![];
+        let base = seed.wrapping_mul(1_000_000);
+        for i in 0..candidates as u64 {
+            let n = base + i;
+            let a = Envelope::new_assertion("item", n);
+            let d = a.digest().data().to_vec();
+            for k in 1..=4usize {
+                if let Some(prev) = by_prefix[k].get(&d[..k]) {
+                    if pairs.iter().filter(|p| p.0 == k).count() < 6 {
+                        pairs.push((k, *prev, n));
+                    }
+                } else {
+                    by_prefix[k].insert(d[..k].to_vec(), n);
+                }
+            }
+        }
+        let found4 = pairs.iter().filter(|p| p.0 == 4).count();
+        for (t, (k, x, y)) in pairs.iter().enumerate() {
+            let mut tr = Tracer {
+                rng: StdRng::seed_from_u64(seed.wrapping_add(t as u64)),
+                regs: vec![None; 6],
+                digests: HashMap::new(),
+                atoms: HashMap::new(),
+                keys: vec![("k1".into(), SymmetricKey::new())],
+                nonces: HashMap::new(),
+                pool: vec![],
+                out: vec![],
+            };
+            tr.out.push(json!({"op": "reset", "args": [], "dst": 0, "out": "ok", "res": ["none"], "extra": {"nreg": 6, "shared_prefix_bytes": k}}));
+            tr.emit("new", json!([]), 0, Ok(Envelope::new("subject")), json!({}));
+            tr.emit("new", json!([]), 1, Ok(Envelope::new("item")), json!({}));
+            tr.emit("new", json!([]), 2, Ok(Envelope::new(*x)), json!({}));
+            tr.emit("new", json!([]), 3, Ok(Envelope::new(*y)), json!({}));
+            let a = Envelope::new_assertion(tr.regs[1].clone().unwrap(), tr.regs[2].clone().unwrap());
+            tr.emit("new_assertion", json!([2, 3]), 2, Ok(a), json!({}));
+            let b = Envelope::new_assertion(tr.regs[1].clone().unwrap(), tr.regs[3].clone().unwrap());
+            tr.emit("new_assertion", json!([2, 4]), 3, Ok(b), json!({}));
+            // subject + a + b  and  subject + b + a
+            for (first, second, dst) in [(2usize, 3usize, 4usize), (3, 2, 5)] {
+                let e1 = tr.regs[0].clone().unwrap().add_assertion_envelope(tr.regs[first].clone().unwrap()).map_err(|e| e.to_string());
+                tr.emit("add_assertion_envelope", json!([1, first + 1]), dst, e1, json!({}));
+                let e2 = tr.regs[dst].clone().unwrap().add_assertion_envelope(tr.regs[second].clone().unwrap()).map_err(|e| e.to_string());
+                tr.emit("add_assertion_envelope", json!([dst + 1, second + 1]), dst, e2, json!({}));
+                let bytes = tr.regs[dst].clone().unwrap().tagged_cbor().to_cbor_data();
+                tr.emit("encode_decode", json!([dst + 1]), dst, Envelope::try_from_cbor_data(bytes).map_err(|e| e.to_string()), json!({}));
+            }
+            for ev in &tr.out {
+                writeln!(f, "{}", ev).unwrap();
+                total += 1;
+            }
+        }
+        f.flush().unwrap();
+        println!("{{\"events\": {}, \"traces\": {}, \"pairs_with_4_byte_prefix\": {}}}", total, pairs.len(), found4);
+        return;
+    }
     if mode == "salt" {
         // C17: envelopes of serialized size 1 B .. 100 KB, salted repeatedly and independently
         let reps: usize = arg(&args, "--reps").and_then(|s| s.parse().ok()).unwrap_or(16);
